@@ -476,3 +476,34 @@ pub mod proofs {
     }
     tree_instances!(c01_tree_ref_k1_l2 = (1, 2), c01_tree_ref_k2_l1 = (2, 1), c01_tree_ref_k2_l2 = (2, 2));
 }
+
+/// C06: `decode::loose_header` on arbitrary bytes never panics; when it accepts, the header has the documented shape.
+#[cfg(kani)]
+pub mod c06_proofs {
+    use super::*;
+
+    pub fn loose_header_arbitrary<const N: usize>() {
+        let data: [u8; N] = kani::any();
+        match gix_object::decode::loose_header(&data) {
+            Ok((kind, _size, consumed)) => {
+                assert!(consumed >= 1 && consumed <= N && data[consumed - 1] == 0, "consumed ends at the NUL");
+                let k = kind.as_bytes();
+                assert!(data[k.len()] == b' ', "kind is followed by a space");
+                kani::cover!(true, "accepted");
+            }
+            Err(e) => {
+                std::mem::forget(e);
+                kani::cover!(true, "refused");
+            }
+        }
+    }
+    macro_rules! lh {
+        ($($name:ident = $n:literal),*) => {$(
+            #[kani::proof]
+            #[kani::unwind(14)]
+            #[kani::stub(alloc::fmt::format, crate::util::stub_format)]
+            pub fn $name() { loose_header_arbitrary::<$n>() }
+        )*};
+    }
+    lh!(c06_loose_header_7 = 7, c06_loose_header_8 = 8, c06_loose_header_10 = 10);
+}
